@@ -20,6 +20,8 @@ def check_history(rng, res, mode, mem_kb, nunits, limit, torn=True, prop="C01"):
             return [("# session:\n" + "\n".join(h.db.log[-200:]), h.fail)]
         states, order = expected_states(h.units)
         trace = h.trace
+        for v in link_discipline(trace)[:1]:
+            fails.append(("# session (commands sent to `verifharness db`):\n" + "\n".join(h.db.log), "history %s, pool %dKB: %s" % (" ".join(h.desc), mem_kb, v)))
         pts = crash_points(trace, rng, limit)
         jobs = []
         # a checkpoint writes its dirty pages in map-iteration order (FlushAllDirtyPages ranges over the page table):
@@ -176,6 +178,74 @@ def big_txn_history(res, rng, nrows):
     return fails
 
 
+def link_window_history(res, rng):
+    """a table page that is full (and clean after a checkpoint) gets a successor inside a transaction that is still open, and is then
+    pushed out of a 12-16 frame pool by that transaction's inserts into another table: the page written carries the link to the new
+    page.  Crash at every I/O boundary; after restart the committed rows are there, the tables accept new rows (which walk the
+    page chain) and these survive the next crash."""
+    from dbsession import DB
+    import os
+    frames = rng.choice([12, 14, 16])
+    db = DB(mem_kb=frames * 4)
+    fails = []
+    try:
+        if not db.open().startswith("ok"):
+            return [("open", "database does not start")]
+        db.cmd("mktable ta k:i:n,g:i:n,v:s:n"); db.cmd("mktable tb k:i:n,g:i:n,v:s:n")
+        w = rng.choice([240, 600, 900, 1300])            # 3 to 15 rows per page: every few inserts a page gets a successor
+        n0 = rng.randrange(4, 24)
+        want = []
+        for i in range(n0):
+            v = pad(w + i % 5, i)
+            db.cmd("rawinsert ta i:%d i:%d s:%s" % (i, i % 7, v.encode().hex()))
+            want.append("i:%d,i:%d,s:%s" % (i, i % 7, v.encode().hex()))
+        db.cmd("checkpoint")
+        db.cmd("mark SETUP-DONE")
+        db.cmd("begin x")
+        k = 5000
+        for rnd in range(rng.randrange(12, 30)):
+            k += 1                                           # one more row for ta inside the open transaction (every few: a new page)
+            db.cmd("tsql x INSERT INTO ta(k,g,v) VALUES (%d, 1, '%s');" % (k, pad(w, k)))
+            for _ in range(rng.randrange(10, 50)):           # and a burst into tb that pushes ta's pages out of the pool
+                k += 1
+                db.cmd("tsql x INSERT INTO tb(k,g,v) VALUES (%d, 1, '%s');" % (k, pad(240, k)))
+        tp = os.path.join(db.dir, "link.trace")
+        db.cmd("trace " + tp)
+        trace = load_trace(tp)
+        s0 = next(i for i, e in enumerate(trace) if e[0] == "M" and e[1] == "SETUP-DONE")
+        for v in link_discipline(trace)[:1]:
+            fails.append(("# verifharness db session:\n" + "\n".join(l[:100] for l in db.log[:6]) + "\n... (%d lines)" % len(db.log),
+                          "%d-frame pool, unfinished transaction growing ta while its inserts into tb push ta's pages out: %s" % (frames, v)))
+        io = [p for p in range(s0 + 1, len(trace) + 1) if (p == len(trace) or trace[p][0] != "M")]
+        after_page = [p for p in io if p > 0 and trace[p - 1][0] == "P"]
+        # the window is "a page write that is not followed by a log write yet": all of those, capped
+        window = [p for p in after_page if p == len(trace) or trace[p][0] != "L"]
+        pts = sorted(set([len(trace)] + (rng.sample(window, min(40, len(window))) if window else []) + rng.sample(io, min(3, len(io)))))
+        want_a = "ok:" + ";".join(sorted(want))
+        rmem = rng.choice([64, 400])
+
+        def one(p):
+            return p, restart_on(image_at(trace, p), ["ta", "tb"], mem_kb=rmem, timeout=120, durability=True)
+        for p, out in parallel(one, pts):
+            res.note_case("linkwindow|%d|%d|%d|%d" % (n0, w, frames, p), True)
+            where = "%d committed rows in ta, checkpoint, then an unfinished transaction inserting into ta and tb in a %d-frame pool; crash after %d I/O events (%d page writes)" % (
+                n0, frames, sum(1 for e in trace[:p] if e[0] != "M"), sum(1 for e in trace[s0:p] if e[0] == "P"))
+            bad = None
+            if out["status"] != "ok":
+                bad = "restart fails: %s" % out.get("detail", out["status"])
+            elif out["rows"]["ta"] != want_a or out["rows"]["tb"] != "ok:":
+                bad = "tables after restart differ from the committed state: ta has %d rows (committed %d), tb %s" % (len(out["rows"]["ta"].split(";")) if out["rows"]["ta"] != "ok:" else 0, n0, out["rows"]["tb"][:60])
+            elif out.get("probe") != "ok":
+                bad = str(out.get("probe"))
+            elif out.get("durability", "ok") != "ok":
+                bad = out["durability"]
+            if bad and len(fails) < 2:
+                fails.append(("# verifharness db session:\n" + "\n".join(l[:100] for l in db.log[:6]) + "\n... (%d lines)\n# crash-point %d None" % (len(db.log), p), where + ": " + bad))
+    finally:
+        db.destroy()
+    return fails
+
+
 def big_loser_history(res, rng):
     """an unfinished transaction that changed more pages than the pool has frames (its pages were written out while it ran), crash,
     restart in a pool that is smaller than the set of pages recovery has to undo"""
@@ -249,6 +319,10 @@ def run(res, replay=None, mode="c01"):
     nh = (16 if mode == "c01" else 24) if res.tier == "quick" else 120
     if mode == "c01":
         for d, w in big_txn_history(res, rng, 2300 if res.tier == "quick" else 7000):
+            if len(res.oracle_failures) < 5:
+                res.oracle_failures.append((d, w))
+    for _ in range(3 if res.tier == "quick" else 20):
+        for d, w in link_window_history(res, rng):
             if len(res.oracle_failures) < 5:
                 res.oracle_failures.append((d, w))
     if mode != "c01":
